@@ -34,7 +34,12 @@ fi
 git apply "$mut" || { echo "cannot apply mutant"; exit 3; }
 rm -rf "$wt/target"
 mkdir -p "$ev"
-rsync -a --exclude target --exclude .git --exclude replays --exclude seeded --exclude '*.log' /verif/ "$ev/"
+# the committed state of /verif (never a half-edited working tree); VERIF_EVAL_WORKTREE=1 takes the working tree
+if [ -n "${VERIF_EVAL_WORKTREE:-}" ]; then
+  rsync -a --exclude target --exclude .git --exclude replays --exclude seeded --exclude '*.log' /verif/ "$ev/"
+else
+  git -C /verif archive HEAD | tar -x -C "$ev" --exclude=seeded
+fi
 sed -i "s#path = \"/repo\"#path = \"$wt\"#" "$ev/harness/Cargo.toml"
 sed -i '/target-dir/d;/^\[build\]/d' "$ev/harness/.cargo/config.toml"
 for id in "$@"; do
